@@ -804,7 +804,7 @@ theorem sameDuties_slashed (cfg : Config) (s s' : State) (i : Nat) (nv : Validat
     (hnv : ∀ w, (initiate_validator_exit_pure cfg (s.slot / cfg.SLOTS_PER_EPOCH) s.validators i)[i]? = some w →
       nv.effective_balance = w.effective_balance ∧ nv.activation_epoch = w.activation_epoch ∧ nv.exit_epoch = w.exit_epoch) :
     SameDuties cfg s s' := by
-  refine ⟨hslot, hmix, ?_, ?_⟩
+  refine ⟨hslot, seed_of_mixes cfg s s' _ _ hmix, ?_, ?_⟩
   · rw [hvals, List.length_set, initiate_pure_length]
   · intro j v v' h1 h2
     unfold get_current_epoch compute_epoch_at_slot
